@@ -168,6 +168,10 @@ def check_scatter(rep, rule, f, effs, attr, count, key, off, sizeterm=None, size
         rep.inconclusive(rule, f.where, '%s is built by a recognised group-by' % attr, got=str(u))
         return
     for kind, msg, e in sc.problems:
+        if kind == 'compaction':
+            rep.fail(rule, f.where, '%s has one list per agent, also for an agent no pair refers to (%s)' % (attr, count), got=msg, want='[[] for _ in range(%s)] filled by index' % count,
+                     construct='%s compacted over the keys that occur' % attr, loc=e.loc)
+            return
         rep.fail(rule, f.where, '%s accumulates every pair (never overwrites a slot)' % attr, got=msg, want='append of each pair', construct='%s slot overwritten' % attr, loc=e.loc)
         return
     want = sizeterm if sizeterm is not None else A(lp.MODEL, count)
